@@ -1,1 +1,982 @@
 //! wire rig (verification scaffolding, cfg(rustdds_verif))
+//!
+//! C14: builds REAL `Message`s (through `MessageBuilder` wherever the crate has a builder
+//! function, otherwise through the submessage structs' own `create_submessage`), serialises
+//! them with the real `Writable` impls, parses bytes with the real `Message::read_from_buffer`
+//! and projects everything to plain data (`PMsg`) so that an external harness can compare with an
+//! independent codec.  Real `NumberSet` construction / iteration.
+//! C15: see the second half of this file (PL-CDR discovery data).
+
+use std::collections::BTreeSet;
+
+use bytes::Bytes;
+use enumflags2::BitFlags;
+use serde::{Deserialize, Serialize};
+use speedy::{Endianness, Readable, Writable};
+
+use crate::{
+  dds::{ddsdata::DDSData, key::KeyHash, with_key::datawriter::WriteOptionsBuilder},
+  messages::{
+    header::Header,
+    protocol_id::ProtocolId,
+    protocol_version::ProtocolVersion,
+    submessages::{
+      elements::{
+        parameter::Parameter, parameter_list::ParameterList, serialized_payload::SerializedPayload,
+      },
+      info_source::InfoSource,
+      submessages::*,
+    },
+    vendor_id::VendorId,
+  },
+  rtps::{Message, MessageBuilder, Submessage, SubmessageBody},
+  structure::{
+    cache_change::{CacheChange, ChangeKind},
+    guid::{EntityId, GuidPrefix, GUID},
+    locator::Locator,
+    parameter_id::ParameterId,
+    rpc::SampleIdentity,
+    sequence_number::{
+      FragmentNumber, FragmentNumberSet, SequenceNumber, SequenceNumberSet,
+    },
+    time::Timestamp,
+  },
+  RepresentationIdentifier,
+};
+
+// ------------------------------------------------------------------ plain data
+
+#[derive(Clone, Debug, PartialEq, Eq, Serialize, Deserialize)]
+pub struct Param {
+  pub pid: u16,
+  pub value: Vec<u8>,
+}
+
+#[derive(Clone, Debug, PartialEq, Eq, Serialize, Deserialize)]
+pub struct NumSet {
+  pub base: i64,
+  pub num_bits: u32,
+  pub words: Vec<u32>,
+}
+
+/// kind, port, address
+pub type Loc = (i32, u32, [u8; 16]);
+
+/// Same shape (variant and field names) as `Sub` of the harness' independent codec, plus
+/// INFO_REPLY, so that the harness converts through serde.
+#[derive(Clone, Debug, PartialEq, Eq, Serialize, Deserialize)]
+pub enum Sub {
+  Data {
+    reader: [u8; 4],
+    writer: [u8; 4],
+    sn: i64,
+    inline_qos: Option<Vec<Param>>,
+    payload: Option<Vec<u8>>,
+    key_flag: bool,
+  },
+  DataFrag {
+    reader: [u8; 4],
+    writer: [u8; 4],
+    sn: i64,
+    frag_start: u32,
+    frags_in_sub: u16,
+    frag_size: u16,
+    sample_size: u32,
+    inline_qos: Option<Vec<Param>>,
+    payload: Vec<u8>,
+    key_flag: bool,
+  },
+  Heartbeat { reader: [u8; 4], writer: [u8; 4], first: i64, last: i64, count: i32, final_flag: bool, liveliness: bool },
+  Gap { reader: [u8; 4], writer: [u8; 4], start: i64, list: NumSet },
+  AckNack { reader: [u8; 4], writer: [u8; 4], set: NumSet, count: i32, final_flag: bool },
+  NackFrag { reader: [u8; 4], writer: [u8; 4], sn: i64, set: NumSet, count: i32 },
+  HeartbeatFrag { reader: [u8; 4], writer: [u8; 4], sn: i64, last_frag: u32, count: i32 },
+  InfoTs { ts: Option<(u32, u32)> },
+  InfoDst { prefix: [u8; 12] },
+  InfoSrc { version: [u8; 2], vendor: [u8; 2], prefix: [u8; 12] },
+  InfoReply { unicast: Vec<Loc>, multicast: Option<Vec<Loc>> },
+}
+
+/// How to obtain a submessage from the crate.
+#[derive(Clone, Debug, PartialEq, Eq, Serialize, Deserialize)]
+pub enum Build {
+  /// submessage struct built field by field; header by the struct's own `create_submessage`
+  /// (or, where the crate has none, `len_serialized` / the length of the written body as
+  /// `Heartbeat::create_submessage` does)
+  Struct(Sub),
+  /// `MessageBuilder::data_msg` from a `CacheChange`.  kind 0 = data, 1 = dispose by key,
+  /// 2 = dispose by key hash.  payload = 4 byte encapsulation header + value.
+  BData { reader: [u8; 4], writer_guid: [u8; 16], sn: i64, kind: u8, payload: Vec<u8>, key_hash: [u8; 16], related: Option<([u8; 16], i64)> },
+  /// `MessageBuilder::data_frag_msg`
+  BDataFrag { reader: [u8; 4], writer_guid: [u8; 16], sn: i64, key: bool, sample: Vec<u8>, frag_num: u32, frag_size: u16, related: Option<([u8; 16], i64)> },
+  /// `MessageBuilder::gap_msg`
+  BGap { reader_guid: [u8; 16], writer: [u8; 4], sns: Vec<i64> },
+  /// `MessageBuilder::gap_msg_before`
+  BGapBefore { reader_guid: [u8; 16], writer: [u8; 4], before: i64 },
+  /// `MessageBuilder::heartbeat_msg`
+  BHeartbeat { reader: [u8; 4], writer: [u8; 4], first: i64, last: i64, count: i32, final_flag: bool, liveliness: bool },
+  /// `MessageBuilder::dst_submessage`
+  BInfoDst { prefix: [u8; 12] },
+  /// `MessageBuilder::ts_msg`
+  BInfoTs { ts: Option<(u32, u32)> },
+}
+
+#[derive(Clone, Debug, PartialEq, Eq, Serialize, Deserialize)]
+pub struct Hdr {
+  pub kind: u8,
+  pub flags: u8,
+  pub len: u16,
+}
+
+#[derive(Clone, Debug, PartialEq, Eq, Serialize, Deserialize)]
+pub struct PMsg {
+  pub version: [u8; 2],
+  pub vendor: [u8; 2],
+  pub prefix: [u8; 12],
+  pub hdrs: Vec<Hdr>,
+  pub subs: Vec<Sub>,
+}
+
+#[derive(Clone, Debug)]
+pub struct Built {
+  /// projection of the constructed (never serialised) Message
+  pub proj: PMsg,
+  /// Message::write_to_vec_with_ctx
+  pub bytes: Vec<u8>,
+  /// every submessage written alone (Submessage::write_to_vec_with_ctx)
+  pub sub_bytes: Vec<Vec<u8>>,
+}
+
+#[derive(Clone, Debug)]
+pub struct Parsed {
+  pub proj: PMsg,
+  /// the parsed Message written again
+  pub reser: Vec<u8>,
+}
+
+// ------------------------------------------------------------------ helpers
+
+fn eid(b: [u8; 4]) -> EntityId {
+  EntityId::from_slice(b)
+}
+fn eid_b(e: EntityId) -> [u8; 4] {
+  e.to_slice()
+}
+fn pfx(b: [u8; 12]) -> GuidPrefix {
+  GuidPrefix::new(&b)
+}
+fn pfx_b(p: GuidPrefix) -> [u8; 12] {
+  let mut o = [0u8; 12];
+  o.copy_from_slice(p.as_ref());
+  o
+}
+fn sn(v: i64) -> SequenceNumber {
+  SequenceNumber::from(v)
+}
+fn pid(v: u16) -> ParameterId {
+  ParameterId::read_from_buffer_with_ctx(Endianness::BigEndian, &v.to_be_bytes()).unwrap()
+}
+fn pid_v(p: ParameterId) -> u16 {
+  let b = p.write_to_vec_with_ctx(Endianness::BigEndian).unwrap();
+  u16::from_be_bytes([b[0], b[1]])
+}
+fn plist(q: &[Param]) -> ParameterList {
+  ParameterList {
+    parameters: q.iter().map(|p| Parameter::new(pid(p.pid), p.value.clone())).collect(),
+  }
+}
+fn plist_p(q: &ParameterList) -> Vec<Param> {
+  q.parameters.iter().map(|p| Param { pid: pid_v(p.parameter_id), value: p.value.clone() }).collect()
+}
+fn snset(s: &NumSet) -> SequenceNumberSet {
+  SequenceNumberSet::verif_from_parts(sn(s.base), s.num_bits, s.words.clone())
+}
+fn snset_p(s: &SequenceNumberSet) -> NumSet {
+  let (b, n, w) = s.verif_parts();
+  NumSet { base: i64::from(b), num_bits: n, words: w }
+}
+fn fnset(s: &NumSet) -> FragmentNumberSet {
+  FragmentNumberSet::verif_from_parts(FragmentNumber::new(s.base as u32), s.num_bits, s.words.clone())
+}
+fn fnset_p(s: &FragmentNumberSet) -> NumSet {
+  let (b, n, w) = s.verif_parts();
+  NumSet { base: u32::from(b) as i64, num_bits: n, words: w }
+}
+fn ts(t: (u32, u32)) -> Timestamp {
+  Timestamp::from_ticks(((t.0 as u64) << 32) | t.1 as u64)
+}
+fn ts_p(t: Timestamp) -> (u32, u32) {
+  let k = t.to_ticks();
+  ((k >> 32) as u32, k as u32)
+}
+fn loc(l: &Loc) -> Locator {
+  use std::net::{Ipv4Addr, Ipv6Addr, SocketAddrV4, SocketAddrV6};
+  match l.0 {
+    1 => Locator::UdpV4(SocketAddrV4::new(Ipv4Addr::new(l.2[12], l.2[13], l.2[14], l.2[15]), l.1 as u16)),
+    2 => Locator::UdpV6(SocketAddrV6::new(Ipv6Addr::from(l.2), l.1 as u16, 0, 0)),
+    k => Locator::Other { kind: k, port: l.1, address: l.2 },
+  }
+}
+fn loc_p(l: &Locator) -> Loc {
+  match l {
+    Locator::Invalid => (-1, 0, [0; 16]),
+    Locator::Reserved => (0, 0, [0; 16]),
+    Locator::UdpV4(a) => {
+      let mut x = [0u8; 16];
+      x[12..16].copy_from_slice(&a.ip().octets());
+      (1, a.port() as u32, x)
+    }
+    Locator::UdpV6(a) => (2, a.port() as u32, a.ip().octets()),
+    Locator::Other { kind, port, address } => (*kind, *port, *address),
+  }
+}
+fn e_of(le: bool) -> Endianness {
+  if le {
+    Endianness::LittleEndian
+  } else {
+    Endianness::BigEndian
+  }
+}
+
+fn related_opts(related: &Option<([u8; 16], i64)>) -> crate::dds::with_key::datawriter::WriteOptions {
+  let mut b = WriteOptionsBuilder::new();
+  if let Some((g, s)) = related {
+    b = b.related_sample_identity(SampleIdentity { writer_guid: GUID::from_bytes(*g), sequence_number: sn(*s) });
+  }
+  b.build()
+}
+
+fn ser_payload(p: &[u8]) -> Result<SerializedPayload, String> {
+  if p.len() < 4 {
+    return Err("payload shorter than encapsulation header".into());
+  }
+  let mut sp = SerializedPayload::new_from_bytes(RepresentationIdentifier::from_bytes(&[p[0], p[1]]).map_err(|e| e.to_string())?, Bytes::copy_from_slice(&p[4..]));
+  sp.representation_options = [p[2], p[3]];
+  Ok(sp)
+}
+
+// ------------------------------------------------------------------ construction
+
+fn wrap_len<T: Writable<Endianness>>(body: &T) -> Result<u16, String> {
+  // as Heartbeat::create_submessage / Gap::create_submessage do
+  body.write_to_vec_with_ctx(Endianness::LittleEndian).map(|b| b.len() as u16).map_err(|e| e.to_string())
+}
+
+fn build_struct(s: &Sub, le: bool) -> Result<Submessage, String> {
+  let e = e_of(le);
+  Ok(match s {
+    Sub::Data { reader, writer, sn: n, inline_qos, payload, key_flag } => {
+      let d = Data {
+        reader_id: eid(*reader),
+        writer_id: eid(*writer),
+        writer_sn: sn(*n),
+        inline_qos: inline_qos.as_ref().map(|q| plist(q)),
+        serialized_payload: payload.as_ref().map(|p| Bytes::copy_from_slice(p)),
+      };
+      let mut flags = BitFlags::<DATA_Flags>::from_endianness(e);
+      if inline_qos.is_some() {
+        flags |= DATA_Flags::InlineQos;
+      }
+      if payload.is_some() {
+        flags |= if *key_flag { DATA_Flags::Key } else { DATA_Flags::Data };
+      }
+      // exactly as MessageBuilder::data_msg assembles the Submessage
+      Submessage {
+        header: SubmessageHeader { kind: SubmessageKind::DATA, flags: flags.bits(), content_length: d.len_serialized() as u16 },
+        body: SubmessageBody::Writer(WriterSubmessage::Data(d, flags)),
+        original_bytes: None,
+      }
+    }
+    Sub::DataFrag { reader, writer, sn: n, frag_start, frags_in_sub, frag_size, sample_size, inline_qos, payload, key_flag } => {
+      let d = DataFrag {
+        reader_id: eid(*reader),
+        writer_id: eid(*writer),
+        writer_sn: sn(*n),
+        fragment_starting_num: FragmentNumber::new(*frag_start),
+        fragments_in_submessage: *frags_in_sub,
+        data_size: *sample_size,
+        fragment_size: *frag_size,
+        inline_qos: inline_qos.as_ref().map(|q| plist(q)),
+        serialized_payload: Bytes::copy_from_slice(payload),
+      };
+      let mut flags = BitFlags::<DATAFRAG_Flags>::from_endianness(e);
+      if inline_qos.is_some() {
+        flags |= DATAFRAG_Flags::InlineQos;
+      }
+      if *key_flag {
+        flags |= DATAFRAG_Flags::Key;
+      }
+      // exactly as MessageBuilder::data_frag_msg assembles the Submessage
+      Submessage {
+        header: SubmessageHeader { kind: SubmessageKind::DATA_FRAG, flags: flags.bits(), content_length: d.len_serialized() as u16 },
+        body: SubmessageBody::Writer(WriterSubmessage::DataFrag(d, flags)),
+        original_bytes: None,
+      }
+    }
+    Sub::Heartbeat { reader, writer, first, last, count, final_flag, liveliness } => {
+      let mut flags = BitFlags::<HEARTBEAT_Flags>::from_endianness(e);
+      if *final_flag {
+        flags |= HEARTBEAT_Flags::Final;
+      }
+      if *liveliness {
+        flags |= HEARTBEAT_Flags::Liveliness;
+      }
+      Heartbeat { reader_id: eid(*reader), writer_id: eid(*writer), first_sn: sn(*first), last_sn: sn(*last), count: *count }
+        .create_submessage(flags)
+        .ok_or("Heartbeat::create_submessage returned None")?
+    }
+    Sub::Gap { reader, writer, start, list } => Gap { reader_id: eid(*reader), writer_id: eid(*writer), gap_start: sn(*start), gap_list: snset(list) }
+      .create_submessage(BitFlags::<GAP_Flags>::from_endianness(e))
+      .ok_or("Gap::create_submessage returned None")?,
+    Sub::AckNack { reader, writer, set, count, final_flag } => {
+      let mut flags = BitFlags::<ACKNACK_Flags>::from_endianness(e);
+      if *final_flag {
+        flags |= ACKNACK_Flags::Final;
+      }
+      AckNack { reader_id: eid(*reader), writer_id: eid(*writer), reader_sn_state: snset(set), count: *count }.create_submessage(flags)
+    }
+    Sub::NackFrag { reader, writer, sn: n, set, count } => {
+      NackFrag { reader_id: eid(*reader), writer_id: eid(*writer), writer_sn: sn(*n), fragment_number_state: fnset(set), count: *count }
+        .create_submessage(BitFlags::<NACKFRAG_Flags>::from_endianness(e))
+    }
+    Sub::HeartbeatFrag { reader, writer, sn: n, last_frag, count } => {
+      // the crate has no constructor for this one: header as Heartbeat::create_submessage makes it
+      let b = HeartbeatFrag { reader_id: eid(*reader), writer_id: eid(*writer), writer_sn: sn(*n), last_fragment_num: FragmentNumber::new(*last_frag), count: *count };
+      let flags = BitFlags::<HEARTBEATFRAG_Flags>::from_endianness(e);
+      Submessage {
+        header: SubmessageHeader { kind: SubmessageKind::HEARTBEAT_FRAG, flags: flags.bits(), content_length: wrap_len(&b)? },
+        body: SubmessageBody::Writer(WriterSubmessage::HeartbeatFrag(b, flags)),
+        original_bytes: None,
+      }
+    }
+    Sub::InfoTs { ts: t } => {
+      return MessageBuilder::new().ts_msg(e, t.map(ts)).add_header_and_build(GuidPrefix::UNKNOWN).submessages.pop().ok_or("ts_msg produced nothing".to_string());
+    }
+    Sub::InfoDst { prefix } => InfoDestination { guid_prefix: pfx(*prefix) }.create_submessage(BitFlags::<INFODESTINATION_Flags>::from_endianness(e)),
+    Sub::InfoSrc { version, vendor, prefix } => {
+      let b = InfoSource { unused: 0, protocol_version: ProtocolVersion { major: version[0], minor: version[1] }, vendor_id: VendorId { vendor_id: *vendor }, guid_prefix: pfx(*prefix) };
+      let flags = BitFlags::<INFOSOURCE_Flags>::from_endianness(e);
+      Submessage {
+        header: SubmessageHeader { kind: SubmessageKind::INFO_SRC, flags: flags.bits(), content_length: wrap_len(&b)? },
+        body: SubmessageBody::Interpreter(InterpreterSubmessage::InfoSource(b, flags)),
+        original_bytes: None,
+      }
+    }
+    Sub::InfoReply { unicast, multicast } => {
+      let b = InfoReply { unicast_locator_list: unicast.iter().map(loc).collect(), multicast_locator_list: multicast.as_ref().map(|m| m.iter().map(loc).collect()) };
+      let mut flags = BitFlags::<INFOREPLY_Flags>::from_endianness(e);
+      if multicast.is_some() {
+        flags |= INFOREPLY_Flags::Multicast;
+      }
+      Submessage {
+        header: SubmessageHeader { kind: SubmessageKind::INFO_REPLY, flags: flags.bits(), content_length: wrap_len(&b)? },
+        body: SubmessageBody::Interpreter(InterpreterSubmessage::InfoReply(b, flags)),
+        original_bytes: None,
+      }
+    }
+  })
+}
+
+fn build_one(b: &Build, le: bool) -> Result<Vec<Submessage>, String> {
+  let e = e_of(le);
+  let mb = MessageBuilder::new();
+  let mb = match b {
+    Build::Struct(s) => return Ok(vec![build_struct(s, le)?]),
+    Build::BData { reader, writer_guid, sn: n, kind, payload, key_hash, related } => {
+      let dv = match kind {
+        0 => DDSData::new(ser_payload(payload)?),
+        1 => DDSData::new_disposed_by_key(ChangeKind::NotAliveDisposed, ser_payload(payload)?),
+        _ => DDSData::new_disposed_by_key_hash(ChangeKind::NotAliveDisposed, KeyHash::from_pl_cdr_bytes(key_hash.to_vec()).map_err(|e| format!("{e:?}"))?),
+      };
+      let wg = GUID::from_bytes(*writer_guid);
+      let cc = CacheChange::new(wg, sn(*n), related_opts(related), dv);
+      mb.data_msg(&cc, eid(*reader), wg, e, None)
+    }
+    Build::BDataFrag { reader, writer_guid, sn: n, key, sample, frag_num, frag_size, related } => {
+      let dv = if *key { DDSData::new_disposed_by_key(ChangeKind::NotAliveDisposed, ser_payload(sample)?) } else { DDSData::new(ser_payload(sample)?) };
+      let wg = GUID::from_bytes(*writer_guid);
+      let cc = CacheChange::new(wg, sn(*n), related_opts(related), dv);
+      mb.data_frag_msg(&cc, eid(*reader), wg, FragmentNumber::new(*frag_num), *frag_size, sample.len() as u32, e, None)
+    }
+    Build::BGap { reader_guid, writer, sns } => {
+      let set: BTreeSet<SequenceNumber> = sns.iter().map(|v| sn(*v)).collect();
+      mb.gap_msg(&set, eid(*writer), e, GUID::from_bytes(*reader_guid))
+    }
+    Build::BGapBefore { reader_guid, writer, before } => mb.gap_msg_before(sn(*before), eid(*writer), e, GUID::from_bytes(*reader_guid)),
+    Build::BHeartbeat { reader, writer, first, last, count, final_flag, liveliness } => mb.heartbeat_msg(eid(*writer), sn(*first), sn(*last), *count, e, eid(*reader), *final_flag, *liveliness),
+    Build::BInfoDst { prefix } => mb.dst_submessage(e, pfx(*prefix)),
+    Build::BInfoTs { ts: t } => mb.ts_msg(e, t.map(ts)),
+  };
+  Ok(mb.add_header_and_build(GuidPrefix::UNKNOWN).submessages)
+}
+
+// ------------------------------------------------------------------ projection
+
+fn project_sub(s: &Submessage) -> Sub {
+  match &s.body {
+    SubmessageBody::Writer(WriterSubmessage::Data(d, f)) => Sub::Data {
+      reader: eid_b(d.reader_id),
+      writer: eid_b(d.writer_id),
+      sn: i64::from(d.writer_sn),
+      inline_qos: d.inline_qos.as_ref().map(plist_p),
+      payload: d.serialized_payload.as_ref().map(|b| b.to_vec()),
+      key_flag: f.contains(DATA_Flags::Key),
+    },
+    SubmessageBody::Writer(WriterSubmessage::DataFrag(d, f)) => Sub::DataFrag {
+      reader: eid_b(d.reader_id),
+      writer: eid_b(d.writer_id),
+      sn: i64::from(d.writer_sn),
+      frag_start: u32::from(d.fragment_starting_num),
+      frags_in_sub: d.fragments_in_submessage,
+      frag_size: d.fragment_size,
+      sample_size: d.data_size,
+      inline_qos: d.inline_qos.as_ref().map(plist_p),
+      payload: d.serialized_payload.to_vec(),
+      key_flag: f.contains(DATAFRAG_Flags::Key),
+    },
+    SubmessageBody::Writer(WriterSubmessage::Gap(g, _)) => Sub::Gap { reader: eid_b(g.reader_id), writer: eid_b(g.writer_id), start: i64::from(g.gap_start), list: snset_p(&g.gap_list) },
+    SubmessageBody::Writer(WriterSubmessage::Heartbeat(h, f)) => Sub::Heartbeat {
+      reader: eid_b(h.reader_id),
+      writer: eid_b(h.writer_id),
+      first: i64::from(h.first_sn),
+      last: i64::from(h.last_sn),
+      count: h.count,
+      final_flag: f.contains(HEARTBEAT_Flags::Final),
+      liveliness: f.contains(HEARTBEAT_Flags::Liveliness),
+    },
+    SubmessageBody::Writer(WriterSubmessage::HeartbeatFrag(h, _)) => {
+      Sub::HeartbeatFrag { reader: eid_b(h.reader_id), writer: eid_b(h.writer_id), sn: i64::from(h.writer_sn), last_frag: u32::from(h.last_fragment_num), count: h.count }
+    }
+    SubmessageBody::Reader(ReaderSubmessage::AckNack(a, f)) => {
+      Sub::AckNack { reader: eid_b(a.reader_id), writer: eid_b(a.writer_id), set: snset_p(&a.reader_sn_state), count: a.count, final_flag: f.contains(ACKNACK_Flags::Final) }
+    }
+    SubmessageBody::Reader(ReaderSubmessage::NackFrag(a, _)) => {
+      Sub::NackFrag { reader: eid_b(a.reader_id), writer: eid_b(a.writer_id), sn: i64::from(a.writer_sn), set: fnset_p(&a.fragment_number_state), count: a.count }
+    }
+    SubmessageBody::Interpreter(InterpreterSubmessage::InfoTimestamp(t, _)) => Sub::InfoTs { ts: t.timestamp.map(ts_p) },
+    SubmessageBody::Interpreter(InterpreterSubmessage::InfoDestination(d, _)) => Sub::InfoDst { prefix: pfx_b(d.guid_prefix) },
+    SubmessageBody::Interpreter(InterpreterSubmessage::InfoSource(s, _)) => {
+      Sub::InfoSrc { version: [s.protocol_version.major, s.protocol_version.minor], vendor: s.vendor_id.vendor_id, prefix: pfx_b(s.guid_prefix) }
+    }
+    SubmessageBody::Interpreter(InterpreterSubmessage::InfoReply(r, _)) => {
+      Sub::InfoReply { unicast: r.unicast_locator_list.iter().map(loc_p).collect(), multicast: r.multicast_locator_list.as_ref().map(|m| m.iter().map(loc_p).collect()) }
+    }
+    #[cfg(feature = "security")]
+    SubmessageBody::Security(_) => Sub::InfoTs { ts: None },
+  }
+}
+
+fn project(m: &Message) -> PMsg {
+  PMsg {
+    version: [m.header.protocol_version.major, m.header.protocol_version.minor],
+    vendor: m.header.vendor_id.vendor_id,
+    prefix: pfx_b(m.header.guid_prefix),
+    hdrs: m.submessages.iter().map(|s| Hdr { kind: u8::from(s.header.kind), flags: s.header.flags, len: s.header.content_length }).collect(),
+    subs: m.submessages.iter().map(project_sub).collect(),
+  }
+}
+
+// ------------------------------------------------------------------ entry points (C14)
+
+/// Constructs the real Message (header + the submessages each `Build` yields) and serialises it.
+/// `le` selects both the speedy context and the endianness flag of every submessage.
+pub fn build(version: [u8; 2], vendor: [u8; 2], prefix: [u8; 12], subs: &[Build], le: bool) -> Result<Built, String> {
+  let mut m = Message::new(Header {
+    protocol_id: ProtocolId::default(),
+    protocol_version: ProtocolVersion { major: version[0], minor: version[1] },
+    vendor_id: VendorId { vendor_id: vendor },
+    guid_prefix: pfx(prefix),
+  });
+  for b in subs {
+    for s in build_one(b, le)? {
+      m.add_submessage(s);
+    }
+  }
+  let bytes = m.write_to_vec_with_ctx(e_of(le)).map_err(|e| e.to_string())?;
+  let mut sub_bytes = vec![];
+  for s in &m.submessages {
+    sub_bytes.push(s.write_to_vec_with_ctx(e_of(le)).map_err(|e| e.to_string())?);
+  }
+  Ok(Built { proj: project(&m), bytes, sub_bytes })
+}
+
+/// `Message::read_from_buffer`, projected, and written again (context = endianness of the first
+/// submessage, which is what the writers of the crate use for a whole message).
+pub fn parse(bytes: &[u8]) -> Result<Parsed, String> {
+  let m = Message::read_from_buffer(&Bytes::copy_from_slice(bytes)).map_err(|e| e.to_string())?;
+  let le = m.submessages.first().map(|s| s.header.flags & 1 == 1).unwrap_or(true);
+  let reser = m.write_to_vec_with_ctx(e_of(le)).map_err(|e| e.to_string())?;
+  Ok(Parsed { proj: project(&m), reser })
+}
+
+#[derive(Clone, Debug, Default)]
+pub struct NsOut {
+  pub set: Option<NumSet>,
+  /// members reported by `iter()` on the constructed set
+  pub iter: Vec<i64>,
+  /// members reported after write (LE / BE) + read
+  pub iter_le: Vec<i64>,
+  pub iter_be: Vec<i64>,
+  pub bytes_le: Vec<u8>,
+  pub bytes_be: Vec<u8>,
+  /// bytes after read + write again
+  pub reser_le: Vec<u8>,
+  pub reser_be: Vec<u8>,
+  pub err: Option<String>,
+}
+
+fn ns_finish_sn(s: SequenceNumberSet) -> NsOut {
+  let mut o = NsOut { set: Some(snset_p(&s)), iter: s.iter().map(i64::from).collect(), ..Default::default() };
+  for le in [true, false] {
+    let b = match s.write_to_vec_with_ctx(e_of(le)) {
+      Ok(b) => b,
+      Err(e) => {
+        o.err = Some(e.to_string());
+        return o;
+      }
+    };
+    match SequenceNumberSet::read_from_buffer_with_ctx(e_of(le), &b) {
+      Ok(r) => {
+        let it: Vec<i64> = r.iter().map(i64::from).collect();
+        let rs = r.write_to_vec_with_ctx(e_of(le)).unwrap_or_default();
+        if le {
+          o.iter_le = it;
+          o.reser_le = rs;
+        } else {
+          o.iter_be = it;
+          o.reser_be = rs;
+        }
+      }
+      Err(e) => o.err = Some(e.to_string()),
+    }
+    if le {
+      o.bytes_le = b;
+    } else {
+      o.bytes_be = b;
+    }
+  }
+  o
+}
+
+fn ns_finish_fn(s: FragmentNumberSet) -> NsOut {
+  let mut o = NsOut { set: Some(fnset_p(&s)), iter: s.iter().map(|f| u32::from(f) as i64).collect(), ..Default::default() };
+  for le in [true, false] {
+    let b = match s.write_to_vec_with_ctx(e_of(le)) {
+      Ok(b) => b,
+      Err(e) => {
+        o.err = Some(e.to_string());
+        return o;
+      }
+    };
+    match FragmentNumberSet::read_from_buffer_with_ctx(e_of(le), &b) {
+      Ok(r) => {
+        let it: Vec<i64> = r.iter().map(|f| u32::from(f) as i64).collect();
+        let rs = r.write_to_vec_with_ctx(e_of(le)).unwrap_or_default();
+        if le {
+          o.iter_le = it;
+          o.reser_le = rs;
+        } else {
+          o.iter_be = it;
+          o.reser_be = rs;
+        }
+      }
+      Err(e) => o.err = Some(e.to_string()),
+    }
+    if le {
+      o.bytes_le = b;
+    } else {
+      o.bytes_be = b;
+    }
+  }
+  o
+}
+
+/// `NumberSet::from_base_and_set` (frag = FragmentNumberSet, else SequenceNumberSet), then
+/// iteration, serialisation in both byte orders, parsing and iteration again.
+pub fn numset_from_members(base: i64, members: &[i64], frag: bool) -> NsOut {
+  if frag {
+    let set: BTreeSet<FragmentNumber> = members.iter().map(|m| FragmentNumber::new(*m as u32)).collect();
+    ns_finish_fn(FragmentNumberSet::from_base_and_set(FragmentNumber::new(base as u32), &set))
+  } else {
+    let set: BTreeSet<SequenceNumber> = members.iter().map(|m| sn(*m)).collect();
+    ns_finish_sn(SequenceNumberSet::from_base_and_set(sn(base), &set))
+  }
+}
+
+/// A set given by its raw parts (as a peer may send it: numBits not canonical, bits beyond
+/// numBits set).
+pub fn numset_from_parts(s: &NumSet, frag: bool) -> NsOut {
+  if frag {
+    ns_finish_fn(fnset(s))
+  } else {
+    ns_finish_sn(snset(s))
+  }
+}
+
+// ====================================================================== C15
+// Discovery data / QoS through the real PL-CDR (de)serialisers.  The object is generated
+// deterministically from (type, seed); `present` says which optional fields are set.  The harness
+// edits the serialised parameter list (removes parameters, splices foreign ones) and hands the
+// bytes back; the result is reported PER FIELD as "value" (equals the generated value), "none"
+// (None / empty list), "default" (the RTPS default of an always-present field) or "other".
+
+use byteorder::{BigEndian, LittleEndian};
+
+use crate::{
+  dds::qos::{policy, QosPolicies},
+  discovery::{
+    builtin_endpoint::{BuiltinEndpointQos, BuiltinEndpointSet},
+    content_filter_property::ContentFilterProperty,
+    sedp_messages::{
+      DiscoveredReaderData, DiscoveredTopicData, DiscoveredWriterData, ParticipantMessageData,
+      ParticipantMessageDataKind, PublicationBuiltinTopicData, ReaderProxy,
+      SubscriptionBuiltinTopicData, TopicBuiltinTopicData, WriterProxy,
+    },
+    spdp_participant_data::SpdpDiscoveredParticipantData,
+  },
+  serialization::pl_cdr_adapters::{PlCdrDeserialize, PlCdrSerialize},
+  structure::duration::Duration,
+};
+
+struct Rng(u64);
+impl Rng {
+  fn next(&mut self) -> u64 {
+    self.0 ^= self.0 << 13;
+    self.0 ^= self.0 >> 7;
+    self.0 ^= self.0 << 17;
+    self.0
+  }
+  fn below(&mut self, n: u64) -> u64 {
+    self.next() % n
+  }
+  fn bytes<const N: usize>(&mut self) -> [u8; N] {
+    let mut a = [0u8; N];
+    for x in a.iter_mut() {
+      *x = (self.next() >> 11) as u8;
+    }
+    a
+  }
+  fn guid(&mut self) -> GUID {
+    GUID::from_bytes(self.bytes::<16>())
+  }
+  fn dur(&mut self) -> Duration {
+    match self.below(4) {
+      0 => Duration::INFINITE,
+      1 => Duration::from_secs(self.below(100000) as i32),
+      _ => Duration::from_nanos(self.below(1 << 40) as i64 + 1),
+    }
+  }
+  fn string(&mut self) -> String {
+    // lengths over every residue mod 4, incl. empty
+    let n = self.below(14) as usize;
+    (0..n).map(|_| (b'a' + self.below(26) as u8) as char).collect()
+  }
+  fn locs(&mut self) -> Vec<Locator> {
+    (0..2)
+      .map(|_| {
+        let a = self.bytes::<16>();
+        let port = 1 + self.below(65535) as u32;
+        match self.below(3) {
+          0 => loc(&(1, port, a)),
+          1 => loc(&(2, port, a)),
+          _ => loc(&(16 + self.below(1000) as i32, self.next() as u32, a)),
+        }
+      })
+      .collect()
+  }
+  fn qos(&mut self) -> QosPolicies {
+    #[allow(unused_variables)]
+    let q = QosPolicies::qos_none();
+    #[allow(clippy::needless_update)]
+    QosPolicies {
+      durability: Some([policy::Durability::Volatile, policy::Durability::TransientLocal, policy::Durability::Transient, policy::Durability::Persistent][self.below(4) as usize]),
+      presentation: Some(policy::Presentation {
+        access_scope: [policy::PresentationAccessScope::Instance, policy::PresentationAccessScope::Topic, policy::PresentationAccessScope::Group][self.below(3) as usize],
+        coherent_access: self.below(2) == 1,
+        ordered_access: self.below(2) == 1,
+      }),
+      deadline: Some(policy::Deadline(self.dur())),
+      latency_budget: Some(policy::LatencyBudget { duration: self.dur() }),
+      ownership: Some(if self.below(2) == 0 { policy::Ownership::Shared } else { policy::Ownership::Exclusive { strength: self.next() as i32 } }),
+      liveliness: Some(match self.below(3) {
+        0 => policy::Liveliness::Automatic { lease_duration: self.dur() },
+        1 => policy::Liveliness::ManualByParticipant { lease_duration: self.dur() },
+        _ => policy::Liveliness::ManualByTopic { lease_duration: self.dur() },
+      }),
+      time_based_filter: Some(policy::TimeBasedFilter { minimum_separation: self.dur() }),
+      reliability: Some(if self.below(2) == 0 { policy::Reliability::BestEffort } else { policy::Reliability::Reliable { max_blocking_time: self.dur() } }),
+      destination_order: Some(if self.below(2) == 0 { policy::DestinationOrder::ByReceptionTimestamp } else { policy::DestinationOrder::BySourceTimeStamp }),
+      history: Some(if self.below(2) == 0 { policy::History::KeepAll } else { policy::History::KeepLast { depth: 1 + self.below(1000) as i32 } }),
+      resource_limits: Some(policy::ResourceLimits { max_samples: self.next() as i32, max_instances: self.next() as i32, max_samples_per_instance: self.next() as i32 }),
+      lifespan: Some(policy::Lifespan { duration: self.dur() }),
+      ..q
+    }
+  }
+}
+
+fn keep_qos(q: &QosPolicies, has: &dyn Fn(&str) -> bool) -> QosPolicies {
+  let mut o = q.clone();
+  macro_rules! k {
+    ($($f:ident),*) => { $( if !has(stringify!($f)) { o.$f = None; } )* };
+  }
+  k!(durability, presentation, deadline, latency_budget, ownership, liveliness, time_based_filter, reliability, destination_order, history, resource_limits, lifespan);
+  o
+}
+
+#[allow(clippy::large_enum_variant)]
+enum Obj {
+  Spdp(SpdpDiscoveredParticipantData),
+  Drd(DiscoveredReaderData),
+  Dwd(DiscoveredWriterData),
+  Dtd(DiscoveredTopicData),
+  Qos(QosPolicies),
+  Pmd(ParticipantMessageData),
+}
+
+fn make(ty: &str, present: Option<&[String]>, seed: u64) -> Result<Obj, String> {
+  let mut r = Rng(seed.wrapping_mul(0x2545F4914F6CDD1D) | 1);
+  let has = |f: &str| -> bool { present.map(|p| p.iter().any(|x| x == f)).unwrap_or(true) };
+  let optv = |f: &str, v: Vec<Locator>| -> Vec<Locator> { if has(f) { v } else { vec![] } };
+  Ok(match ty {
+    "spdp" => {
+      let (mu, mm, du, dm) = (r.locs(), r.locs(), r.locs(), r.locs());
+      let lease = r.dur();
+      let beq = BuiltinEndpointQos::read_from_buffer_with_ctx(Endianness::LittleEndian, &(r.below(2) as u32).to_le_bytes()).map_err(|e| e.to_string())?;
+      let name = r.string();
+      Obj::Spdp(SpdpDiscoveredParticipantData {
+        updated_time: chrono::DateTime::<chrono::Utc>::MIN_UTC,
+        protocol_version: ProtocolVersion { major: 2, minor: r.below(6) as u8 },
+        vendor_id: VendorId { vendor_id: r.bytes::<2>() },
+        expects_inline_qos: has("expects_inline_qos"),
+        participant_guid: r.guid(),
+        metatraffic_unicast_locators: optv("metatraffic_unicast_locators", mu),
+        metatraffic_multicast_locators: optv("metatraffic_multicast_locators", mm),
+        default_unicast_locators: optv("default_unicast_locators", du),
+        default_multicast_locators: optv("default_multicast_locators", dm),
+        available_builtin_endpoints: BuiltinEndpointSet::from_u32(r.next() as u32),
+        lease_duration: if has("lease_duration") { Some(lease) } else { None },
+        manual_liveliness_count: if has("manual_liveliness_count") { 1 + r.below(1000) as i32 } else { 0 },
+        builtin_endpoint_qos: if has("builtin_endpoint_qos") { Some(beq) } else { None },
+        entity_name: if has("entity_name") { Some(name) } else { None },
+        #[cfg(feature = "security")]
+        identity_token: None,
+        #[cfg(feature = "security")]
+        permissions_token: None,
+        #[cfg(feature = "security")]
+        property: None,
+        #[cfg(feature = "security")]
+        security_info: None,
+      })
+    }
+    "drd" => {
+      let g = r.guid();
+      let (ul, ml) = (r.locs(), r.locs());
+      let pk = r.guid();
+      let (tn, ty_n) = (r.string(), r.string());
+      let q = r.qos();
+      let cf = ContentFilterProperty {
+        content_filtered_topic_name: r.string() + "c",
+        related_topic_name: r.string() + "r",
+        filter_class_name: r.string() + "f",
+        filter_expression: r.string(),
+        expression_parameters: (0..r.below(3)).map(|_| r.string()).collect(),
+      };
+      Obj::Drd(DiscoveredReaderData {
+        reader_proxy: ReaderProxy::new(g, has("expects_inline_qos"), optv("unicast_locator_list", ul), optv("multicast_locator_list", ml)),
+        subscription_topic_data: SubscriptionBuiltinTopicData::new(g, if has("participant_key") { Some(pk) } else { None }, tn, ty_n, &keep_qos(&q, &has), None),
+        content_filter: if has("content_filter") { Some(cf) } else { None },
+      })
+    }
+    "dwd" => {
+      let g = r.guid();
+      let (ul, ml) = (r.locs(), r.locs());
+      let pk = r.guid();
+      let (tn, ty_n) = (r.string(), r.string());
+      let q = r.qos();
+      let max = r.next() as u32;
+      let (sin, rk, al) = (r.string(), r.guid(), vec![r.string(), r.string()]);
+      let mut p = PublicationBuiltinTopicData::new_with_qos(g, if has("participant_key") { Some(pk) } else { None }, tn, ty_n, &keep_qos(&q, &has), None);
+      if has("service_instance_name") {
+        p.service_instance_name = Some(sin);
+      }
+      if has("related_datareader_key") {
+        p.related_datareader_key = Some(rk);
+      }
+      if has("topic_aliases") {
+        p.topic_aliases = Some(al);
+      }
+      Obj::Dwd(DiscoveredWriterData {
+        last_updated: std::time::Instant::now(),
+        writer_proxy: WriterProxy {
+          remote_writer_guid: g,
+          unicast_locator_list: optv("unicast_locator_list", ul),
+          multicast_locator_list: optv("multicast_locator_list", ml),
+          data_max_size_serialized: if has("data_max_size_serialized") { Some(max) } else { None },
+        },
+        publication_topic_data: p,
+      })
+    }
+    "dtd" => {
+      let k = r.guid();
+      let (n, t) = (r.string(), r.string());
+      let q = r.qos();
+      Obj::Dtd(DiscoveredTopicData::new(chrono::DateTime::<chrono::Utc>::MIN_UTC, TopicBuiltinTopicData::new(if has("key") { Some(k) } else { None }, n, t, &keep_qos(&q, &has))))
+    }
+    "qos" => {
+      let q = r.qos();
+      Obj::Qos(keep_qos(&q, &has))
+    }
+    "pmd" => Obj::Pmd(ParticipantMessageData {
+      guid: pfx(r.bytes::<12>()),
+      kind: if r.below(2) == 0 { ParticipantMessageDataKind::AUTOMATIC_LIVELINESS_UPDATE } else { ParticipantMessageDataKind::MANUAL_LIVELINESS_UPDATE },
+      // "data" present: 1..7 octets (every residue mod 4), else empty as the crate sends it
+      data: if has("data") { (0..1 + r.below(7)).map(|_| r.next() as u8).collect() } else { vec![] },
+    }),
+    t => return Err(format!("unknown type {t}")),
+  })
+}
+
+fn rep(le: bool) -> RepresentationIdentifier {
+  if le {
+    RepresentationIdentifier::PL_CDR_LE
+  } else {
+    RepresentationIdentifier::PL_CDR_BE
+  }
+}
+
+/// serialised form of the generated object (parameter list; plain CDR for "pmd")
+pub fn pl_serialize(ty: &str, present: &[String], seed: u64, le: bool) -> Result<Vec<u8>, String> {
+  let e = |x: crate::serialization::pl_cdr_adapters::PlCdrSerializeError| format!("{x:?}");
+  Ok(match make(ty, Some(present), seed)? {
+    Obj::Spdp(o) => o.to_pl_cdr_bytes(rep(le)).map_err(e)?.to_vec(),
+    Obj::Drd(o) => o.to_pl_cdr_bytes(rep(le)).map_err(e)?.to_vec(),
+    Obj::Dwd(o) => o.to_pl_cdr_bytes(rep(le)).map_err(e)?.to_vec(),
+    Obj::Dtd(o) => o.to_pl_cdr_bytes(rep(le)).map_err(e)?.to_vec(),
+    Obj::Qos(o) => ParameterList { parameters: o.to_parameter_list(e_of(le)).map_err(e)? }.write_to_vec_with_ctx(e_of(le)).map_err(|x| x.to_string())?,
+    Obj::Pmd(o) => if le { crate::serialization::to_vec::<_, LittleEndian>(&o) } else { crate::serialization::to_vec::<_, BigEndian>(&o) }.map_err(|x| x.to_string())?,
+  })
+}
+
+fn so<T: PartialEq>(g: &Option<T>, f: &Option<T>) -> &'static str {
+  match g {
+    None => "none",
+    Some(_) if g == f => "value",
+    _ => "other",
+  }
+}
+fn sv<T: PartialEq>(g: &[T], f: &[T]) -> &'static str {
+  if g.is_empty() {
+    "none"
+  } else if g == f {
+    "value"
+  } else {
+    "other"
+  }
+}
+fn sr<T: PartialEq>(g: &T, f: &T) -> &'static str {
+  if g == f {
+    "value"
+  } else {
+    "other"
+  }
+}
+fn sd<T: PartialEq>(g: &T, f: &T, d: &T) -> &'static str {
+  if g == f {
+    "value"
+  } else if g == d {
+    "default"
+  } else {
+    "other"
+  }
+}
+
+fn qos_status(g: &QosPolicies, f: &QosPolicies, names: &[&str], out: &mut Vec<(String, String)>) {
+  macro_rules! k {
+    ($($n:ident),*) => { $( if names.contains(&stringify!($n)) { out.push((stringify!($n).to_string(), so(&g.$n, &f.$n).to_string())); } )* };
+  }
+  k!(durability, presentation, deadline, latency_budget, ownership, liveliness, time_based_filter, reliability, destination_order, history, resource_limits, lifespan);
+}
+
+const QOS_ENDPOINT: [&str; 10] = ["durability", "presentation", "deadline", "latency_budget", "ownership", "liveliness", "time_based_filter", "reliability", "destination_order", "lifespan"];
+const QOS_TOPIC: [&str; 11] = ["durability", "presentation", "deadline", "latency_budget", "ownership", "liveliness", "reliability", "destination_order", "history", "resource_limits", "lifespan"];
+const QOS_ALL: [&str; 12] = ["durability", "presentation", "deadline", "latency_budget", "ownership", "liveliness", "time_based_filter", "reliability", "destination_order", "history", "resource_limits", "lifespan"];
+
+/// Deserialises `bytes` with the real code and compares field by field with the object generated
+/// from (ty, seed) with ALL fields set.  Err = the deserialiser rejected the bytes.
+pub fn pl_deserialize_and_compare(ty: &str, seed: u64, le: bool, bytes: &[u8]) -> Result<Vec<(String, String)>, String> {
+  let full = make(ty, None, seed)?;
+  let mut o: Vec<(String, String)> = vec![];
+  let mut p = |n: &str, s: &str| o.push((n.to_string(), s.to_string()));
+  let e = |x: crate::serialization::pl_cdr_adapters::PlCdrDeserializeError| format!("{x:?}");
+  match full {
+    Obj::Spdp(f) => {
+      let g = SpdpDiscoveredParticipantData::from_pl_cdr_bytes(bytes, rep(le)).map_err(e)?;
+      p("protocol_version", sr(&g.protocol_version, &f.protocol_version));
+      p("vendor_id", sr(&g.vendor_id, &f.vendor_id));
+      p("expects_inline_qos", sd(&g.expects_inline_qos, &true, &false));
+      p("participant_guid", sr(&g.participant_guid, &f.participant_guid));
+      p("metatraffic_unicast_locators", sv(&g.metatraffic_unicast_locators, &f.metatraffic_unicast_locators));
+      p("metatraffic_multicast_locators", sv(&g.metatraffic_multicast_locators, &f.metatraffic_multicast_locators));
+      p("default_unicast_locators", sv(&g.default_unicast_locators, &f.default_unicast_locators));
+      p("default_multicast_locators", sv(&g.default_multicast_locators, &f.default_multicast_locators));
+      p("available_builtin_endpoints", sr(&g.available_builtin_endpoints, &f.available_builtin_endpoints));
+      p("lease_duration", so(&g.lease_duration, &f.lease_duration));
+      p("manual_liveliness_count", sd(&g.manual_liveliness_count, &f.manual_liveliness_count, &0));
+      p("builtin_endpoint_qos", so(&g.builtin_endpoint_qos, &f.builtin_endpoint_qos));
+      p("entity_name", so(&g.entity_name, &f.entity_name));
+    }
+    Obj::Drd(f) => {
+      let g = DiscoveredReaderData::from_pl_cdr_bytes(bytes, rep(le)).map_err(e)?;
+      p("remote_reader_guid", sr(&g.reader_proxy.remote_reader_guid, &f.reader_proxy.remote_reader_guid));
+      p("key", sr(&g.subscription_topic_data.key(), &f.subscription_topic_data.key()));
+      p("expects_inline_qos", sd(&g.reader_proxy.expects_inline_qos, &true, &false));
+      p("unicast_locator_list", sv(&g.reader_proxy.unicast_locator_list, &f.reader_proxy.unicast_locator_list));
+      p("multicast_locator_list", sv(&g.reader_proxy.multicast_locator_list, &f.reader_proxy.multicast_locator_list));
+      p("participant_key", so(g.subscription_topic_data.participant_key(), f.subscription_topic_data.participant_key()));
+      p("topic_name", sr(g.subscription_topic_data.topic_name(), f.subscription_topic_data.topic_name()));
+      p("type_name", sr(g.subscription_topic_data.type_name(), f.subscription_topic_data.type_name()));
+      p("content_filter", so(&g.content_filter, &f.content_filter));
+      drop(p);
+      qos_status(&g.subscription_topic_data.qos(), &f.subscription_topic_data.qos(), &QOS_ENDPOINT, &mut o);
+    }
+    Obj::Dwd(f) => {
+      let g = DiscoveredWriterData::from_pl_cdr_bytes(bytes, rep(le)).map_err(e)?;
+      let (gp, fp) = (&g.publication_topic_data, &f.publication_topic_data);
+      p("remote_writer_guid", sr(&g.writer_proxy.remote_writer_guid, &f.writer_proxy.remote_writer_guid));
+      p("key", sr(&gp.key, &fp.key));
+      p("unicast_locator_list", sv(&g.writer_proxy.unicast_locator_list, &f.writer_proxy.unicast_locator_list));
+      p("multicast_locator_list", sv(&g.writer_proxy.multicast_locator_list, &f.writer_proxy.multicast_locator_list));
+      p("data_max_size_serialized", so(&g.writer_proxy.data_max_size_serialized, &f.writer_proxy.data_max_size_serialized));
+      p("participant_key", so(&gp.participant_key, &fp.participant_key));
+      p("topic_name", sr(&gp.topic_name, &fp.topic_name));
+      p("type_name", sr(&gp.type_name, &fp.type_name));
+      p("service_instance_name", so(&gp.service_instance_name, &fp.service_instance_name));
+      p("related_datareader_key", so(&gp.related_datareader_key, &fp.related_datareader_key));
+      p("topic_aliases", so(&gp.topic_aliases, &fp.topic_aliases));
+      drop(p);
+      qos_status(&gp.qos(), &fp.qos(), &QOS_ENDPOINT, &mut o);
+    }
+    Obj::Dtd(f) => {
+      let g = DiscoveredTopicData::from_pl_cdr_bytes(bytes, rep(le)).map_err(e)?;
+      p("key", so(&g.topic_data.key, &f.topic_data.key));
+      p("name", sr(&g.topic_data.name, &f.topic_data.name));
+      p("type_name", sr(&g.topic_data.type_name, &f.topic_data.type_name));
+      drop(p);
+      use crate::dds::qos::HasQoSPolicy;
+      qos_status(&g.topic_data.qos(), &f.topic_data.qos(), &QOS_TOPIC, &mut o);
+    }
+    Obj::Qos(f) => {
+      let pl = ParameterList::read_from_buffer_with_ctx(e_of(le), bytes).map_err(|x| x.to_string())?;
+      let g = QosPolicies::from_parameter_list(e_of(le), &pl.to_map()).map_err(e)?;
+      drop(p);
+      qos_status(&g, &f, &QOS_ALL, &mut o);
+    }
+    Obj::Pmd(f) => {
+      let g: ParticipantMessageData = if le { crate::serialization::from_bytes::<_, LittleEndian>(bytes) } else { crate::serialization::from_bytes::<_, BigEndian>(bytes) }.map_err(|x| x.to_string())?.0;
+      p("guid", sr(&g.guid, &f.guid));
+      p("kind", sr(&g.kind, &f.kind));
+      p("data", sv(&g.data, &f.data));
+    }
+  }
+  Ok(o)
+}
